@@ -1,6 +1,7 @@
 package main
 
 import (
+	"verif/harness/internal/c12"
 	"verif/harness/internal/c11"
 	"verif/harness/internal/c10"
 	"verif/harness/internal/c17"
@@ -9,6 +10,8 @@ import (
 )
 
 func init() {
+	checks["C12"] = c12.Run
+	workers["c12"] = c12.Worker
 	checks["C11"] = c11.Run
 	workers["c11"] = c11.Worker
 	checks["C10"] = c10.Run
